@@ -311,3 +311,12 @@ Proof.
   intros c Hc E. pose proof table_no_leak_b as H. rewrite forallb_forall in H.
   specialize (H c Hc). rewrite E in H. discriminate.
 Qed.
+
+(* source translation: the regenerated __init__ / setup_render assignments reset every attribute that a renderer
+   method reads before writing, for every prior state (the state stays a variable: the computation only goes
+   through when each attribute is assigned by the generated code) *)
+Lemma reset_ok_all : forall st, reset_ok st = true.
+Proof. intro st. vm_compute. reflexivity. Qed.
+
+Lemma merge_copies : merge_copies_ok = true.
+Proof. vm_compute. reflexivity. Qed.
